@@ -155,6 +155,12 @@ func trustedResourceURLFormat(format string, args map[string]string) (TrustedRes
 		// segments or URL components.
 		return safehtmlutil.QueryEscapeURL(argVal)
 	})
+	// An empty argument directly after the leading slash of a path-absolute
+	// format (e.g. "/%{a}/%{b}") must not turn the result into a
+	// scheme-relative URL ("//host") whose host is taken from what follows.
+	if err == nil && format[0] == '/' && len(ret) > 1 && (ret[1] == '/' || ret[1] == '\\') && !strings.HasPrefix(format, "//") {
+		err = fmt.Errorf("arguments must not turn the path-absolute format %q into the scheme-relative URL %q", format, ret)
+	}
 	return TrustedResourceURL{ret}, err
 }
 
